@@ -1,23 +1,111 @@
 package main
 
 import (
+	"flag"
 	"fmt"
 	"os"
+	"strings"
 
-	"golang.org/x/tools/go/packages"
-	"golang.org/x/tools/go/ssa"
-	"golang.org/x/tools/go/ssa/ssautil"
+	"vc/internal/vc"
 )
 
+func usage() {
+	fmt.Fprintln(os.Stderr, `usage:
+  vc check <Cxx> [--tier quick|thorough] [--repo /repo]
+  vc func <pkgpath::func> [...]      debug: verify single functions and print every obligation
+  vc replay <file>
+  vc selftest [Cxx ...]`)
+	os.Exit(2)
+}
+
 func main() {
-	cfg := &packages.Config{Mode: packages.LoadAllSyntax, Dir: "/repo", BuildFlags: []string{"-tags=verif"}}
-	pkgs, err := packages.Load(cfg, os.Args[1:]...)
+	if len(os.Args) < 2 {
+		usage()
+	}
+	switch os.Args[1] {
+	case "check":
+		os.Exit(vc.CmdCheck(os.Args[2:]))
+	case "func":
+		os.Exit(cmdFunc(os.Args[2:]))
+	case "replay":
+		os.Exit(vc.CmdReplay(os.Args[2:]))
+	case "selftest":
+		os.Exit(vc.CmdSelftest(os.Args[2:]))
+	default:
+		usage()
+	}
+}
+
+func cmdFunc(args []string) int {
+	fs := flag.NewFlagSet("func", flag.ExitOnError)
+	repo := fs.String("repo", "/repo", "repository")
+	verif := fs.String("verif", "/verif", "verif dir")
+	timeout := fs.Int("timeout", 20, "solver timeout (s)")
+	dump := fs.String("dump", "", "directory to write .smt2 files of failed obligations")
+	pkgs := fs.String("pkgs", "./...", "package patterns (comma separated)")
+	fs.Parse(args)
+	e, err := vc.Load(*repo, strings.Split(*pkgs, ","), nil)
 	if err != nil {
-		panic(err)
+		fmt.Fprintln(os.Stderr, err)
+		return 2
 	}
-	prog, spkgs := ssautil.AllPackages(pkgs, ssa.GlobalDebug|ssa.BareInits)
-	prog.Build()
-	for _, p := range spkgs {
-		fmt.Println(p)
+	if err := e.LoadContracts(*verif+"/contracts/mirror", *verif+"/contracts/trusted", *verif+"/spec"); err != nil {
+		fmt.Fprintln(os.Stderr, err)
+		return 2
 	}
+	for _, k := range fs.Args() {
+		if !strings.Contains(k, "::") {
+			fmt.Fprintln(os.Stderr, "function key must be pkgpath::name")
+			return 2
+		}
+		if !strings.HasPrefix(k, "github.com/") && !strings.Contains(strings.SplitN(k, "::", 2)[0], ".") {
+			k = vc.ModulePath + "/" + k
+		}
+		e.VerifyFunc(k)
+	}
+	res := vc.SolveAll(e.Obls, *timeout, 12, 0, "")
+	bad := 0
+	for _, r := range res {
+		mark := "ok  "
+		if !r.Discharged() {
+			mark = "FAIL"
+			bad++
+		}
+		fmt.Printf("%s %-8s %-10s %6.2fs %s", mark, r.Status, r.Solver, r.Seconds, r.Obl.Name)
+		if r.Obl.Where != "" {
+			fmt.Printf("  @%s", r.Obl.Where)
+		}
+		fmt.Println()
+		if !r.Discharged() {
+			if r.Obl.Clause != "" {
+				fmt.Printf("       clause: %s\n", r.Obl.Clause)
+			}
+			if r.Status == "failed" {
+				fmt.Printf("       %s\n", r.Output)
+			} else if r.Status == "sat" {
+				fmt.Printf("       model: %s\n", strings.Join(vc.SortedModel(r.Model), ", "))
+			} else {
+				fmt.Printf("       %s\n", r.Output)
+			}
+			if *dump != "" && r.Script != "" {
+				os.MkdirAll(*dump, 0o755)
+				fn := *dump + "/" + sanitizeFile(r.Obl.Name) + ".smt2"
+				os.WriteFile(fn, []byte(r.Script), 0o644)
+				fmt.Printf("       script: %s\n", fn)
+			}
+		}
+	}
+	for _, n := range e.Notes {
+		fmt.Println("note:", n)
+	}
+	fmt.Printf("%d obligations, %d failed\n", len(res), bad)
+	if bad > 0 {
+		return 1
+	}
+	return 0
+}
+
+func sanitizeFile(s string) string {
+	r := strings.NewReplacer("/", "_", "*", "", "(", "", ")", "", "#", "-", ":", "-", " ", "_", "$", "_", "@", "_", "<", "le", ">", "gt", "=", "")
+	return r.Replace(s)
 }
